@@ -23,6 +23,33 @@ class AObj:
         return "<%s>" % self.name
 
 
+class ClassTok:
+    """a class object referred to by name (EditableModule, torch.nn.Module, a wrapper class): answers isinstance(x, <it>) through the
+    abstract object's class table and, when called, records the construction like a literal constructor call"""
+    def __init__(self, dotted: str):
+        self.dotted = dotted
+
+    def __repr__(self):
+        return "<class %s>" % self.dotted
+
+    def __eq__(self, o):
+        return isinstance(o, ClassTok) and o.dotted == self.dotted
+
+    def __hash__(self):
+        return hash(("ClassTok", self.dotted))
+
+
+def _dotted_names(e) -> Optional[str]:
+    parts = []
+    while isinstance(e, ast.Attribute):
+        parts.append(e.attr)
+        e = e.value
+    if isinstance(e, ast.Name):
+        parts.append(e.id)
+        return ".".join(reversed(parts))
+    return None
+
+
 class Closure:
     def __init__(self, params, body, env, is_expr):
         self.params, self.body, self.env, self.is_expr = params, body, env, is_expr
@@ -35,9 +62,17 @@ class KindInterp(DictInterp):
     functions: Dict[str, Any] = {}        # name -> ast.FunctionDef of module-level functions that may be called (recursion included)
     host: Dict[str, Any] = {}             # dotted name -> host callable standing for a library function (torch.cat, itertools.accumulate, ..)
     records: Dict[str, Any] = {}          # class name -> collections.namedtuple type for NamedTuple / namedtuple classes of the module
+    consts: Dict[str, ast.AST] = {}       # module-level `NAME = <expr>` tables the function may consult (evaluated on use)
     depth = 0
 
     def ev(self, e):
+        if isinstance(e, (ast.Name, ast.Attribute)) and isinstance(getattr(e, "ctx", None), ast.Load):
+            d_ = _dotted_names(e)
+            if d_ is not None and d_ not in self.env and d_.split(".")[0] not in self.env:
+                if d_ in self.consts:
+                    return self.ev(self.consts[d_])
+                if d_.split(".")[-1][:1].isupper() and d_ not in self.records and d_.split(".")[-1] not in ("True", "False", "None"):
+                    return ClassTok(d_)
         if isinstance(e, ast.Attribute) and not ast.unparse(e) in self.env:
             try:
                 v = self.ev(e.value)
@@ -86,7 +121,17 @@ class KindInterp(DictInterp):
         fn = ast.unparse(c.func)
         if fn == "isinstance" and len(c.args) == 2:
             v = self.ev(c.args[0])
-            types = [ast.unparse(t) for t in (c.args[1].elts if isinstance(c.args[1], ast.Tuple) else [c.args[1]])]
+            types = []
+            for t in (c.args[1].elts if isinstance(c.args[1], ast.Tuple) else [c.args[1]]):
+                tn = ast.unparse(t)
+                if tn in self.env or tn in self.consts:        # a class held in a variable / a table row
+                    tv = self.ev(t)
+                    tvs = list(tv) if isinstance(tv, (tuple, list)) else [tv]
+                    if not all(isinstance(x_, ClassTok) for x_ in tvs):
+                        raise Unsupported("isinstance(.., %s)" % tn)
+                    types.extend(x_.dotted for x_ in tvs)
+                else:
+                    types.append(tn)
             if isinstance(v, AObj):
                 return any(t in v.classes for t in types)
             if set(types) & {"list", "dict", "tuple", "List", "Dict", "Tuple", "Mapping", "Sequence"} or isinstance(v, (list, tuple, ADict)):
@@ -190,7 +235,7 @@ class KindInterp(DictInterp):
             if len(env) != len(ps):
                 raise Unsupported("missing arguments of %s" % fn)
             sub = type(self)(env)
-            sub.functions, sub.depth, sub.host, sub.records = self.functions, self.depth + 1, self.host, self.records
+            sub.functions, sub.depth, sub.host, sub.records, sub.consts = self.functions, self.depth + 1, self.host, self.records, self.consts
             is_gen = any(isinstance(n_, (ast.Yield, ast.YieldFrom)) for st_ in fnode.body for n_ in ast.walk(st_)
                          if not isinstance(st_, (ast.FunctionDef, ast.ClassDef)))
             if is_gen:
@@ -209,6 +254,13 @@ class KindInterp(DictInterp):
             return self.env[fn](*[self.ev(a) for a in c.args])        # a host stand-in for a collaborator whose contract another rule decides
         if isinstance(c.func, ast.Name) and isinstance(self.env.get(fn), Closure):
             return self.apply(self.env[fn], [self.ev(a) for a in c.args])
+        if isinstance(c.func, (ast.Name, ast.Subscript)) and not any(isinstance(a, ast.Starred) for a in c.args):
+            try:
+                callee_ = self.ev(c.func) if (fn in self.env or isinstance(c.func, ast.Subscript)) else None
+            except Unsupported:
+                callee_ = None
+            if isinstance(callee_, ClassTok):
+                return ("made", callee_.dotted.split(".")[-1], tuple(self.ev(a) for a in c.args), tuple(sorted((k.arg, self.ev(k.value)) for k in c.keywords if k.arg)))
         if last[:1].isupper() and not last.endswith("Error") and last not in ("Exception",) and not any(isinstance(a, ast.Starred) for a in c.args):
             return ("made", last, tuple(self.ev(a) for a in c.args), tuple(sorted((k.arg, self.ev(k.value)) for k in c.keywords if k.arg)))
         return super().call(c)
@@ -265,9 +317,22 @@ class KindInterp(DictInterp):
             super().run(rest)
 
 
-def outcome(fnode: ast.FunctionDef, env: Dict[str, Any]) -> Tuple[str, Any]:
+def module_consts(tree: ast.Module) -> Dict[str, ast.AST]:
+    """module-level `NAME = <expr>` bindings (single assignment only): tables and aliases a function may consult"""
+    seen: Dict[str, list] = {}
+    for st in tree.body:
+        if isinstance(st, ast.Assign) and len(st.targets) == 1 and isinstance(st.targets[0], ast.Name):
+            seen.setdefault(st.targets[0].id, []).append(st.value)
+        elif isinstance(st, ast.AnnAssign) and isinstance(st.target, ast.Name) and st.value is not None:
+            seen.setdefault(st.target.id, []).append(st.value)
+    return {k: v[0] for k, v in seen.items() if len(v) == 1}
+
+
+def outcome(fnode: ast.FunctionDef, env: Dict[str, Any], consts: Optional[Dict[str, ast.AST]] = None) -> Tuple[str, Any]:
     """('returned', value) | ('raised', what); Unsupported propagates"""
     it = KindInterp(env)
+    if consts:
+        it.consts = consts
     try:
         it.run([s for s in fnode.body])
     except _Return as r:
